@@ -29,10 +29,10 @@ Tbl(schema, name, alias, cols, idxs) ==
 
 ColTypes == PlainTypes \o <<[schema |-> "", name |-> "status", suffix |-> ""], [schema |-> "public", name |-> "status", suffix |-> ""],
                             [schema |-> "s1", name |-> "order status", suffix |-> ""], [schema |-> "s1", name |-> "status", suffix |-> ""]>>
-ColRadices == <<2, 2, 2, 2, Len(Defaults), 3, Len(ColTypes), 3>>
+ColRadices == <<2, 2, 2, 2, Len(Defaults), 3, Len(ColTypes), 4>>      \* (name 4: a case variant of its sibling "id")
 ColumnDoc(n) ==
   LET dg(k) == Digit(n, ColRadices, k)
-      col == [PlainCol(<<"amount", "unit price", "default">>[dg(8) + 1]) EXCEPT
+      col == [PlainCol(<<"amount", "unit price", "default", "ID">>[dg(8) + 1]) EXCEPT
                 !.pk = B(dg(1)), !.unique = B(dg(2)), !.notnull = B(dg(3)), !.autoinc = B(dg(4)),
                 !.default = Defaults[dg(5) + 1], !.note = NoteKinds[dg(6) + 1], !.type = ColTypes[dg(7) + 1]]
   IN <<HostEnum, HostEnum2, Tbl("", "items", "", <<PlainCol("id"), col, PlainCol("z")>>, <<>>)>>
@@ -40,13 +40,15 @@ ColumnDoc(n) ==
 IdxSubjects == << <<[k |-> "col", v |-> "id"]>>, <<[k |-> "expr", v |-> "lower(name)"]>>,
                   <<[k |-> "col", v |-> "id"], [k |-> "col", v |-> "unit price"]>>,
                   <<[k |-> "col", v |-> "unit price"], [k |-> "expr", v |-> "id * 2"]>> >>
-IdxRadices == <<Len(IdxSubjects), 3, 2, 2, Len(IdxTypes) - 1, 3>>
+IdxRadices == <<Len(IdxSubjects), 3, 2, 2, Len(IdxTypes) - 1, 3, 3>>      \* (last: the index stands first, between or after two plain ones)
 IndexDoc(n) ==
   LET dg(k) == Digit(n, IdxRadices, k)
       ix == [subj |-> IdxSubjects[dg(1) + 1], name |-> <<"", "idx_1", "it's an index">>[dg(2) + 1], unique |-> B(dg(3)), pk |-> B(dg(4)),
              type |-> IdxTypes[dg(5) + 2], note |-> NoteKinds[dg(6) + 1], comment |-> ""]
       plain == [subj |-> <<[k |-> "col", v |-> "id"]>>, name |-> "", unique |-> FALSE, pk |-> FALSE, type |-> "", note |-> "", comment |-> ""]
-  IN <<Tbl("s1", "items", "", <<PlainCol("id"), PlainCol("unit price")>>, <<ix, plain>>)>>
+      plain2 == [plain EXCEPT !.subj = <<[k |-> "col", v |-> "unit price"]>>, !.unique = TRUE]
+  IN <<Tbl("s1", "items", "", <<PlainCol("id"), PlainCol("unit price")>>,
+           CASE dg(7) = 0 -> <<ix, plain, plain2>> [] dg(7) = 1 -> <<plain, ix, plain2>> [] OTHER -> <<plain, plain2, ix>>)>>
 
 TblNames == <<"items", "order items", "table", "~u00dc~n~u00ef~">>
 TblRadices == <<Len(TblNames), 4, 2, 3, 3, 2>>
@@ -59,7 +61,7 @@ TableDoc(n) ==
 
 \* references: kind x written inline or standalone x how each side is addressed x arity x name x actions
 RefActions == <<"", "cascade", "no action", "restrict", "set null", "set default">>
-RefRadices == <<4, 2, 3, 3, 2, 2, Len(RefActions), Len(RefActions)>>
+RefRadices == <<4, 2, 3, 3, 2, 3, Len(RefActions), Len(RefActions)>>
 AddrMode(mode, schema, name, alias) ==
   IF mode = 2 THEN [schema |-> "", table |-> alias]                        \* by alias
   ELSE IF mode = 1 /\ SchemaOf(schema) = "public" THEN [schema |-> "", table |-> name]   \* bare
@@ -76,7 +78,7 @@ RefDoc(n) ==
       ocols == <<IF inline THEN [PlainCol("user id") EXCEPT !.refs = <<[type |-> kind, addr |-> right]>>] ELSE PlainCol("user id"), PlainCol("kind")>>
       orders == Tbl("", "orders", "o", ocols, <<>>)
       users == Tbl("s1", "users", "u", <<PlainCol("id"), PlainCol("kind")>>, <<>>)
-      r == [d |-> "ref", name |-> IF B(dg(6)) THEN "fk name" ELSE "", left |-> left, type |-> kind, right |-> right,
+      r == [d |-> "ref", name |-> <<"", "fk name", "fk{1}">>[dg(6) + 1], left |-> left, type |-> kind, right |-> right,
             onupdate |-> RefActions[dg(7) + 1], ondelete |-> RefActions[dg(8) + 1], comment |-> ""]
   IN IF inline THEN (IF dg(6) + dg(7) + dg(8) + dg(3) = 0 THEN <<orders, users>> ELSE <<>>)   \* inline has no name/actions/left address
      ELSE <<r, orders, users>>
